@@ -487,13 +487,9 @@ func (p *Pigeon) CallData(chain string, m *consensustypes.MessageWithSignatures,
 		return data, power, err
 	case *evmtypes.Message_CompassHandover:
 		hd := a.CompassHandover
-		type fwd struct {
-			ContractAddress common.Address
-			Payload         []byte
-		}
-		var calls []fwd
+		calls := []abiCall{}
 		for _, f := range hd.ForwardCallArgs {
-			calls = append(calls, fwd{common.HexToAddress(f.HexContractAddress), f.Payload})
+			calls = append(calls, abiCall{common.HexToAddress(f.HexContractAddress), f.Payload})
 		}
 		data, err := abi.Pack("compass_update_batch", con, calls, big.NewInt(hd.Deadline), bigU(m.GasEstimate), relayer)
 		return data, power, err
